@@ -535,7 +535,7 @@ def gen_text_edits(sources):
 # behaviour-preserving refactorings written by independent sub-agents (benign/<id>/patch.diff, each with an equivalence
 # demo whose digest is identical with and without the change): every check of the file's properties must stay silent
 # restructurings that the engines cannot follow yet (DESIGN.md section 14): kept under benign/ for the record, not asserted
-KNOWN_LIMITS = {'bondops2-2', 'sweeps2-3', 'sweeps2-4'}
+KNOWN_LIMITS = set()
 
 
 def gen_benign_patches(sources):
